@@ -523,4 +523,120 @@ theorem k_arrayGetNextUnset_eq (a : WArr) (h32 : ∀ w ∈ a.words, w < W32) (fr
 /-- non-vacuity of `k_arrayGetNextUnset_eq` -/
 example : ∃ a : WArr, (∀ w ∈ a.words, w < W32) ∧ a.words.length < 3 := ⟨⟨[5, 4294967295], 40⟩, by decide, by decide⟩
 
+/-! ### ToBytes -/
+
+/-- one step of the inner loop of `ToBytes` with the running bit offset in the state -/
+def toBytesBitStep (a : WArr) (p : Nat × Nat) (j : Nat) : Res (Nat × Nat) := do
+  let bit ← a.get p.1
+  pure (p.1 + 1, if bit then p.2 ||| (1 <<< (7 - j)) else p.2)
+
+theorem toBytesBit_fold (a : WArr) (bo : Nat) : ∀ (n j0 tb : Nat),
+    (List.range' j0 n).foldlM (toBytesBitStep a) (bo + j0, tb) =
+      ((List.range' j0 n).foldlM (fun theByte j => do
+        let bit ← a.get (bo + j)
+        pure (if bit then theByte ||| (1 <<< (7 - j)) else theByte)) tb).map (fun tb' => (bo + (j0 + n), tb')) := by
+  intro n
+  induction n with
+  | zero => intro j0 tb; simp [pure, Except.pure, Except.map]
+  | succ n ih =>
+    intro j0 tb
+    simp only [List.range', List.foldlM, toBytesBitStep, bind, Except.bind]
+    cases a.get (bo + j0) with
+    | error e => rfl
+    | ok bit =>
+      simp only [pure, Except.pure]
+      have := ih (j0 + 1) (if bit then tb ||| (1 <<< (7 - j0)) else tb)
+      rw [show bo + (j0 + 1) = bo + j0 + 1 by omega] at this
+      rw [this]
+      congr 2; funext tb'; congr 1; omega
+
+/-- one step of the outer loop of `ToBytes` with the running bit offset in the state -/
+def toBytesByteStep (a : WArr) (offset : Nat) (p : Nat × List Nat) (i : Nat) : Res (Nat × List Nat) := do
+  let theByte ← WArr.toBytesByte a p.1
+  if offset + i < p.2.length then pure (p.1 + 8, p.2.set (offset + i) theByte)
+  else .error (.panic "index out of range")
+
+theorem toBytesByte_fold (a : WArr) (bo offset : Nat) : ∀ (n i0 : Nat) (arr : List Nat),
+    (List.range' i0 n).foldlM (toBytesByteStep a offset) (bo + 8 * i0, arr) =
+      ((List.range' i0 n).foldlM (fun (arr : List Nat) i => do
+        let theByte ← WArr.toBytesByte a (bo + 8 * i)
+        if offset + i < arr.length then pure (arr.set (offset + i) theByte)
+        else .error (.panic "index out of range")) arr).map (fun arr' => (bo + 8 * (i0 + n), arr')) := by
+  intro n
+  induction n with
+  | zero => intro i0 arr; simp [pure, Except.pure, Except.map]
+  | succ n ih =>
+    intro i0 arr
+    simp only [List.range', List.foldlM, toBytesByteStep, bind, Except.bind]
+    cases WArr.toBytesByte a (bo + 8 * i0) with
+    | error e => rfl
+    | ok tb =>
+      simp only []
+      by_cases hl : offset + i0 < arr.length
+      · simp only [hl, if_true, pure, Except.pure]
+        have := ih (i0 + 1) (arr.set (offset + i0) tb)
+        rw [show bo + 8 * (i0 + 1) = bo + 8 * i0 + 8 by omega] at this
+        rw [this]
+        congr 2; funext arr'; congr 1; omega
+      · simp only [hl, if_false]; rfl
+
+when_kernel Gzx.Gen.K16b.arrayToBytes in
+/-- `BitArray.ToBytes(bitOffset, array, offset, numBytes)` = `WArr.toBytes`: for every output byte eight `Get(bitOffset)` with
+    `bitOffset++`, bit `7-j` of a `byte`, stored at `array[offset+i]` (index panics of `Get` and of the store) -/
+theorem k_arrayToBytes_eq (a : WArr) (bitOffset : Nat) (array : List Nat) (offset numBytes : Nat) :
+    Gen.K16b.arrayToBytes (words a.words) bitOffset (words array) offset numBytes =
+      (WArr.toBytes a bitOffset array offset numBytes).map words := by
+  simp only [Gen.K16b.arrayToBytes]
+  have hm : (List.range' 0 numBytes).foldlM (toBytesByteStep a offset) (bitOffset, array) =
+      (WArr.toBytes a bitOffset array offset numBytes).map (fun arr' => (bitOffset + 8 * numBytes, arr')) := by
+    have := toBytesByte_fold a bitOffset offset numBytes 0 array
+    rw [show bitOffset + 8 * 0 = bitOffset by omega, Nat.zero_add] at this
+    rw [this, WArr.toBytes, List.range_eq_range']
+  have hm2 : ∀ bo, (List.range' 0 8).foldlM (toBytesBitStep a) (bo, 0) =
+      (WArr.toBytesByte a bo).map (fun tb => (bo + 8, tb)) := by
+    intro bo
+    have := toBytesBit_fold a bo 8 0 0
+    rw [show bo + 0 = bo by omega, Nat.zero_add] at this
+    rw [this, WArr.toBytesByte, List.range_eq_range']
+  rw [loop_up_fold' (fun (p : Nat × List Nat) => ((p.1 : Int), words p.2)) (toBytesByteStep a offset) 0 numBytes (bitOffset, array)
+        rfl (by rw [tripUp_one]; omega) (by omega), ofRes_thenR, hm]
+  · cases WArr.toBytes a bitOffset array offset numBytes <;> rfl
+  · intro i _ _ p
+    obtain ⟨bo, arr⟩ := p
+    simp only [Gen.K16b.arrayToBytes_body1]
+    rw [show (0 : Int) = ((0 : Nat) : Int) from rfl,
+      loop_up_fold' (fun (p : Nat × Nat) => ((p.1 : Int), (p.2 : Int))) (toBytesBitStep a) 0 8 (bo, 0) rfl
+        (by rw [tripUp_one]; omega) rfl, ofRes_thenC, hm2]
+    · simp only [toBytesByteStep, bind, Except.bind]
+      cases WArr.toBytesByte a bo with
+      | error e => rfl
+      | ok tb =>
+        simp only [Except.map]
+        rw [setC arr (offset + i) tb _ (by omega) rfl]
+        unfold setWord
+        by_cases hl : offset + i < arr.length
+        · simp [hl, pure, Except.pure]
+        · simp [hl]
+    · intro j _ hj q
+      obtain ⟨bo', tb⟩ := q
+      simp only [Gen.K16b.arrayToBytes_body2, toBytesBitStep]
+      rw [k_arrayGet_eq]
+      simp only [bind, Except.bind]
+      cases a.get bo' with
+      | error e => rfl
+      | ok bit =>
+        simp only [tryC_ok, pure, Except.pure, Except.map, ofRes_ok]
+        cases bit with
+        | false => simp
+        | true =>
+          have hb : wrap 8 (ishl 1 (wrap 64 (7 - (j : Int)))) = ((1 <<< (7 - j) : Nat) : Int) := by
+            rw [show wrap 64 (7 - (j : Int)) = ((7 - j : Nat) : Int) by gonorm; omega, ishl_one, wrap_natCast]
+            congr 1
+            apply Nat.mod_eq_of_lt
+            rw [Nat.one_shiftLeft]
+            exact Nat.pow_lt_pow_right (by decide) (by omega)
+          simp only [if_true, next_thenC]
+          rw [hb, ior_natCast]
+          simp
+
 end Gzx.Obligations.K16bArr
